@@ -482,15 +482,25 @@ func (cs *Contracts) loadFile(path string) error {
 			}
 		case "uses":
 			// uses entryclosure, blockframe: opt-in facts assumed while verifying THIS function (see ext_crypto.go)
-			if cur != nil {
+			// Every other name is a LEMMA (ext_induct.go: `uses L1, L2` of a function or of a lemma): the two meanings of the keyword were
+			// introduced independently and are told apart by the name.
+			var lemmaNames []string
+			for _, f := range strings.FieldsFunc(rest, func(r rune) bool { return r == ',' || r == ' ' || r == '\t' }) {
+				if f != "entryclosure" && f != "blockframe" && f != "readsframe" {
+					lemmaNames = append(lemmaNames, f)
+					continue
+				}
+				if cur == nil {
+					return fail(fmt.Errorf("uses %s outside func", f))
+				}
 				if cur.Uses == nil {
 					cur.Uses = map[string]bool{}
 				}
-				for _, f := range strings.FieldsFunc(rest, func(r rune) bool { return r == ',' || r == ' ' }) {
-					if f != "entryclosure" && f != "blockframe" && f != "readsframe" {
-						return fail(fmt.Errorf("uses: unknown fact %q (entryclosure, blockframe, readsframe)", f))
-					}
-					cur.Uses[f] = true
+				cur.Uses[f] = true
+			}
+			if len(lemmaNames) > 0 {
+				if _, err := extClause(word, strings.Join(lemmaNames, " "), pkg, cur, curLemma); err != nil {
+					return fail(err)
 				}
 			}
 		case "mode":
